@@ -188,7 +188,8 @@ def identity(n):
         return '%s.%s' % (oid, n.get('name'))
     if tag == 'virtual-method':
         ts = owner.get('glib:type-struct')
-        return 'Foo%s::%s' % (ts, n.get('name')) if ts else None
+        pfx = oid[:-len(owner.get('name'))] if oid and owner.get('name') and oid.endswith(owner.get('name')) else 'Foo'
+        return '%s%s::%s' % (pfx, ts, n.get('name')) if ts else None
     if tag == 'member':
         return n.get('c:identifier')
     return None
@@ -317,9 +318,19 @@ def run_case(case):
     header, dump = objgen.render_objlib(model, rng)
     header += '#define FOO_LIMIT 10\n#define FOO_NAME "name"\nvoid foo_free_standing (gint x);\nFooRec *foo_free_make (void);\n'
     targets = targets_of(model, header)
+    ident_prefixes = ['Foo']
+    if model['classes'] and rng.random() < 0.3:
+        # a class whose C structure carries another identifier prefix of the namespace than its registered GType name
+        # (typedef FuWidget, GType "FooWidget"): comment blocks are written with the C name
+        victim = rng.choice(model['classes'])['name']
+        if not any(c['name'] != victim and victim in ([c['pstruct']] + c['chain']) for c in model['classes']):
+            alt = 'Fu' + victim[3:]
+            header = re.sub(r'\b%s(Class)?\b' % victim, lambda m: alt + (m.group(1) or ''), header)
+            targets = [(re.sub(r'^%s(Class)?(?=$|[:.])' % victim, lambda m: alt + (m.group(1) or ''), ident), kind, extra) for ident, kind, extra in targets]
+            ident_prefixes = ['Foo', 'Fu']
     source, blocks = gen_blocks(rng, targets, model)
     m0 = dict(scan.mech)
-    r = scan.scan(apigen.library(headers=[('/src/foo.h', header)], sources=[('/src/foo.c', source)], dump=dump))
+    r = scan.scan(apigen.library(headers=[('/src/foo.h', header)], sources=[('/src/foo.c', source)], dump=dump, identifier_prefixes=ident_prefixes))
     res = {'viol': [], 'classes': [], 'hits': {}}
     replay = {'header': header, 'source': source, 'dump': dump}
     if r['exception']:
